@@ -89,6 +89,21 @@ theorem arrival_indexed_rows_depend_on_order :
 
 theorem accumulation_by_id : Gen.countsAssignedById = true ∧ Gen.histRowsKeyed = true := ⟨rfl, rfl⟩
 
+/-- the per-bin weight sums of a patch are reported by EVERY pair the patch takes part in (generated flag:
+    unconditionally, for every bin) and are a function of the patch alone (its cached trees): repeated
+    writes to the same cell agree, so the fold is order independent -/
+theorem weights_consistent {ν : Type} (W : Nat → ν) (pairs : List (Nat × Nat)) :
+    Consistent (pairs.map fun p => (p.1, W p.1)) ∧ Consistent (pairs.map fun p => (p.2, W p.2)) := by
+  constructor <;>
+  · intro a ha b hb hk
+    simp only [List.mem_map] at ha hb
+    obtain ⟨p, _, rfl⟩ := ha
+    obtain ⟨q, _, rfl⟩ := hb
+    simp only at hk ⊢
+    rw [hk]
+
+theorem pair_weights_flag : Gen.pairWeightsUnconditional = true := rfl
+
 theorem glue_pinned :
     Gen.pinIterUnordered = "a80bbc69dae9ab1a" ∧ Gen.pinPatchHistogram = "191fe95584c9adf0" := by decide
 
